@@ -1349,6 +1349,9 @@ Proof. intros H. unfold data_val. destruct (268435440 <=? x) eqn:E; [apply N.leb
 Lemma spare_val_small x : x < 268435440 -> spare_val x = Eoc.
 Proof. intros H. unfold spare_val. destruct (268435440 <=? x) eqn:E; [apply N.leb_le in E; lia|reflexivity]. Qed.
 
+Lemma fat_values_small x : x < 268435440 -> data_val x = Free /\ spare_val x = Eoc.
+Proof. intros H. split; [exact (data_val_small x H)|exact (spare_val_small x H)]. Qed.
+
 (* FAT12/16 tables never reach that range *)
 Lemma small_fat_entries o ts bs t : builder_range o -> ts < 4294967296 ->
   format_boot_sector_validated o ts = Ok (bs, t) -> t <> Format.Fat32 -> sp_fat_entries (fbs_bpb bs) t <= 268435440.
